@@ -159,7 +159,7 @@ package engine
 //@ -- exist fails or is an existence error as the flag `unknown` says; one that exists is called with the caller's
 //@ -- arguments and continuation, in the caller's environment extended by the context (its predicate indicator)
 //@ func (*VM).Arrive
-//@   property C04 C05
+//@   property C04 C05 C10
 //@   recovers nil
 //@   bind ee = existenceError#1
 //@   bind er = Error#1
